@@ -277,6 +277,10 @@ fn read_data_compressed(result: &mut Buffer, bytes: &[u8]) -> EngineResult<bool>
                 }
             }
             Compression::Char => {
+                if o >= bytes.len() {
+                    log::error!("Invalid XBin. Read char compression block beyond EOF.");
+                    break;
+                }
                 let char_code = bytes[o];
                 o += 1;
                 for _ in 0..repeat_counter {
@@ -294,6 +298,10 @@ fn read_data_compressed(result: &mut Buffer, bytes: &[u8]) -> EngineResult<bool>
                 }
             }
             Compression::Attr => {
+                if o >= bytes.len() {
+                    log::error!("Invalid XBin. Read attribute compression block beyond EOF.");
+                    break;
+                }
                 let attribute = bytes[o];
                 o += 1;
                 for _ in 0..repeat_counter {
@@ -310,6 +318,10 @@ fn read_data_compressed(result: &mut Buffer, bytes: &[u8]) -> EngineResult<bool>
                 }
             }
             Compression::Full => {
+                if o >= bytes.len() {
+                    log::error!("Invalid XBin. nRead compression block beyond EOF.");
+                    break;
+                }
                 let char_code = bytes[o];
                 o += 1;
                 if o + 1 > bytes.len() {
